@@ -1,4 +1,4 @@
-PROPERTY = 'C14'
+PROPERTY = 'C14m'
 FG = dict(mode='seq', looporder=True, cut=['prioritize_task'], devirt=True, prune=True, inline_threshold=300, m1ptr=True)
 UNITS = {
   'fq': dict(FG, wrapper='w_fnode.cpp', cxxflags=['-DPOL=0']),
@@ -7,10 +7,6 @@ UNITS = {
   'frl': dict(FG, wrapper='w_fnode.cpp', cxxflags=['-DPOL=3']),
   'fql_t': dict(FG, wrapper='w_fnode.cpp', cxxflags=['-DPOL=2', '-DNOTHROW=0']),
 }
-UNITS['ebc'] = dict(FG, wrapper='w_edge.cpp', cxxflags=['-DEK=0'])
-UNITS['eq'] = dict(FG, wrapper='w_edge.cpp', cxxflags=['-DEK=1'])
-UNITS['inode'] = dict(FG, wrapper='w_inode.cpp')
-UNITS['chain'] = dict(FG, wrapper='w_chain.cpp')
 FS = ['--max-field-sensitivity-array-size', '600', '--object-bits', '12', '--no-sat-preprocessor']
 def S(conc, ops, **kw):
     d = {'CONC': conc, 'OPS': ops, 'ACCS': 0, 'SYMACC': 1}
@@ -38,41 +34,6 @@ HARNESSES = [
   FN('fnode_queueing_lw', 'fql', 0, 1, FL_QUICK + [S(1, '1,1,1,8,8', FIFO=1)], 'function_node queueing_lightweight'),
   FN('fnode_rejecting_lw', 'frl', 1, 1, FL_QUICK + [S(1, '4,8,8,8', AVAIL=2)], 'function_node rejecting_lightweight'),
   FN('fnode_lw_throwing_body', 'fql_t', 0, 0, [S(1, '1,1,8,1,8', FIFO=1)], 'lightweight policy, body not noexcept'),
-]
-def E(ops, accs, flips, nsucc=2, **kw):
-    d = {'OPS': ops, 'ACCS': accs, 'FLIPS': flips, 'NSUCC': nsucc}
-    d.update(kw); return d
-EQ_QUICK = [
-  E('1,2,10,1,11,10,1,2,2', '0,1,2', '3'),
-  E('1,2,20,1,30,2,20,31,20,2,1,2', '0', '1', nsucc=1),
-]
-EBC_QUICK = [
-  E('1,1,10,1,11,1', '0,5,2', '3,1,2'),
-  E('1,10,1,11,10,1', '0,7', '7,5', nsucc=3),
-]
-def EH(name, unit, ek, scs, desc):
-    return dict(name=name, unit=unit, harness='h_edge.c', cbmc=['--unwind', '40'] + FS, defines={'memset': 'vp_memset', 'EK': ek},
-                native_cflags=['-fno-sanitize=null'], scenarios_quick=scs, scenarios_thorough=scs, desc=desc, bounds={}, timeout=900)
-HARNESSES += [
-  EH('edge_queue_node', 'eq', 1, EQ_QUICK, 'queue_node edge flipping'),
-  EH('edge_broadcast_node', 'ebc', 0, EBC_QUICK, 'broadcast_node edge flipping'),
-]
-IN_QUICK = [
-  E('1,2,2,2', '3,1,0', '1', nsucc=1, NPROD=2),
-  E('1,2,10,2,10,10,2,2', '0,2', '1', nsucc=1, NPROD=2, MINFLIP=1),
-  E('1,2,20,30,2,20,31,2,20', '0', '1', nsucc=1, NPROD=2, MINFLIP=1),
-  E('2,40,1,2,2,11,2', '1,2,0', '3', nsucc=1, NPROD=2),
-]
-HARNESSES += [
-  dict(name='input_node', unit='inode', harness='h_inode.c', cbmc=['--unwind', '40'] + FS, defines={'memset': 'vp_memset'},
-       native_cflags=['-fno-sanitize=null'], scenarios_quick=IN_QUICK, scenarios_thorough=IN_QUICK, desc='input_node', bounds={}, timeout=900),
-]
-CH_QUICK = [
-  {'CONC': 1, 'OPS': '1,2,1,2,2', 'FIFO': 1},
-]
-HARNESSES += [
-  dict(name='chain_queue_function', unit='chain', harness='h_chain.c', cbmc=['--unwind', '40'] + FS, defines={'memset': 'vp_memset'},
-       native_cflags=['-fno-sanitize=null'], scenarios_quick=CH_QUICK, scenarios_thorough=CH_QUICK, desc='queue_node -> function_node rejecting', bounds={}, timeout=900),
 ]
 OUTSIDE = []
 STUBS = []
